@@ -16,6 +16,15 @@ from twisted.python import failure
 TICKS = 1024
 
 
+def state_name(p):
+    """the protocol's state, named through the protocol's own IDLE / CONNECTING / CONNECTED / DISCONNECTING attributes
+    (as the repository's tests read it), so that the class names behind them are free to change"""
+    for attr, name in (("IDLE", "IdleState"), ("CONNECTING", "ConnectingState"), ("CONNECTED", "ConnectedState"), ("DISCONNECTING", "BaseState")):
+        if getattr(p, attr, None) is p.state:
+            return name
+    return type(p.state).__name__
+
+
 class VClock(object):
     """IReactorTime with explicit firing of a chosen pending call"""
     running = False
@@ -86,7 +95,7 @@ def label(f, a):
 clock = VClock()
 installReactor(clock)
 
-import mqtt.client.interval as _IV
+import random as _random
 
 
 class _Jitter(object):
@@ -98,7 +107,12 @@ class _Jitter(object):
         return cls.rnd.random() if cls.rnd is not None else cls.value
 
 
-_IV.random = _Jitter          # interval.py does "random.random()"
+# the retry jitter: interval.py does "random.random()"; the stdlib function is replaced before the library is imported, so
+# that "from random import random" (after a refactoring) is pinned as well. The drivers use their own random.Random instances.
+_random.random = _Jitter.random
+import mqtt.client.interval as _IV    # noqa: E402
+if getattr(_IV, "random", None) is _random:
+    _IV.random = _Jitter
 
 from mqtt.client.factory import MQTTFactory   # noqa: E402
 from mqtt import v31, v311                     # noqa: E402
@@ -156,7 +170,7 @@ class World(object):
         self.f = MQTTFactory(PROFILES[profile])
         self.tid = tid; self.n = 0; self.out = out
         self.p = {}; self.t = {}; self.gen = {}
-        self.nd = 0; self.dfr = {}          # handle -> [deferred, status]
+        self.nd = 0; self.dfr = {}; self.mids = {}          # handle -> [deferred, status]; handle -> identifier
         self.addrs = []
         self.lines = []
         self.meta = dict(meta or {})
@@ -166,7 +180,7 @@ class World(object):
     # ------------------------------------------------------------------ recording
     def emit(self, stim):
         self.n += 1
-        post = {"state": {a: (type(self.p[a].state).__name__ if a in self.p else "none") for a in self.addrs},
+        post = {"state": {a: (state_name(self.p[a]) if a in self.p else "none") for a in self.addrs},
                 "timers": [c.at for c in clock.pending()],
                 "pending": sorted(h for h, v in self.dfr.items() if v[1] == "pending")}
         line = {"tid": self.tid, "n": self.n, "t": clock.now, "profile": self.profile, "stim": stim, "fx": list(self.fx), "post": post}
@@ -242,6 +256,7 @@ class World(object):
         self.nd += 1; h = self.nd
         self.dfr[h] = [d, "pending"]
         mid = getattr(d, "msgId", None)
+        self.mids[h] = mid if isinstance(mid, int) else -1
 
         def ok(v, h=h):
             self.dfr[h][1] = "ok"
@@ -342,9 +357,20 @@ class World(object):
         self.fired[(lab["fn"], lab["id"])] = self.fired.get((lab["fn"], lab["id"]), 0) + 1
         return self.run({"op": "fire", "tm": dc.vid}, lambda: clock.fire(dc))
 
+    def pending_mids(self):
+        """identifiers of the requests whose Deferred has not fired (as reported by the library on the Deferred)"""
+        return sorted({self.mids[h] for h, (d, st) in self.dfr.items() if st == "pending" and self.mids.get(h, -1) > 0})
+
     def pokeid(self, n):
         """test-only placement of the factory's identifier counter (C17 names this placement)"""
-        self.f.id = n
+        if isinstance(getattr(self.f, "id", None), int):
+            self.f.id = n
+        else:                       # the counter is not where it used to be: reach the placement through makeId() alone
+            for _ in range(65536):
+                last = self.f.makeId()
+                if last == n:
+                    break
+            n = last
         return self.emit({"op": "pokeid", "v": n})
 
     def idle(self, dt):
